@@ -233,7 +233,10 @@ def pack_params(rng, tlvs, extended, grouping):
     if not extended and len(std) <= 255:
         return bytes([len(std)]) + std, False
     ext = b''.join(bytes([2]) + be16(len(g)) + g for g in groups)
-    return bytes([255, 255]) + be16(len(ext)) + ext, True
+    # RFC 9072 s.2: the type octet 255 selects the encoding; the length octet before it SHOULD be 255, MUST NOT be 0
+    # and is ignored by the receiver
+    lenoct = rng.choice([255, 255, 255, 1, 4, 200, 254])
+    return bytes([lenoct, 255]) + be16(len(ext)) + ext, lenoct
 
 
 def gen_peer(rng, cfg, stream):
@@ -330,8 +333,17 @@ def gen_peer(rng, cfg, stream):
         # shuffling changes which duplicate comes last: recompute the views from the final order
         rng.shuffle(caps)
     tlvs = [cap_bytes(c) for c in caps]
-    extended = rng.random() < 0.15
-    params, is_ext = pack_params(rng, tlvs, extended, rng.choice(['one', 'one', 'all', 'mixed']))
+    extended = rng.random() < 0.18
+    grouping = rng.choice(['one', 'one', 'all', 'mixed'])
+    base255 = False
+    if not extended and stream == 'valid' and rng.random() < 0.06:
+        # base encoding whose length octet is exactly 255 (the next octet, a parameter type, is not 255)
+        need = 255 - sum(len(v) + 4 for _, v in tlvs)
+        if 4 <= need <= 255:
+            caps.append(('raw', 200, bytes(need - 4)))
+            tlvs.append(cap_bytes(caps[-1]))
+            grouping, base255 = 'one', True
+    params, is_ext = pack_params(rng, tlvs, extended, grouping)
     as4_in_order = [c[1] for c in caps if c[0] == 'as4']
     consistent = True
     note = []
@@ -349,6 +361,10 @@ def gen_peer(rng, cfg, stream):
         note.append('send-receive>3')
     if not consistent:
         note.append('rfc-inconsistent')
+    if is_ext and is_ext != 255:
+        note.append(f'rfc9072-len-octet-{is_ext}')
+    if base255 and not is_ext:
+        note.append('base-encoding-length-255')
     body = bytes([version]) + be16(as2) + be16(hold) + be32(rid) + params
     adv = {
         'version': version, 'as2': as2, 'hold': hold, 'id': rid,
@@ -368,7 +384,7 @@ def gen_peer(rng, cfg, stream):
         body, why = mutate(rng, body, caps, version, as2, hold, rid)
         adv = None
         note.append(why)
-    return {'body': list(body), 'adv': adv, 'kind': kind, 'consistent': consistent, 'extended_params': is_ext,
+    return {'body': list(body), 'adv': adv, 'kind': kind, 'consistent': consistent, 'extended_params': bool(is_ext),
             'ncaps': len(caps), 'note': note, 'true_as': true_as}
 
 
@@ -696,18 +712,22 @@ def describe(conf, cfg, peer, out):
     }
 
 
-def minimal_peer(cfg, true_as, rid, hold=90, caps=None):
+def minimal_peer(cfg, true_as, rid, hold=90, caps=None, lenoct=None):
     """A small well-formed peer OPEN used to shrink findings."""
     caps = caps if caps is not None else [('mp', (1, 1), 0)]
     caps = list(caps) + [('as4', true_as, False)]
     tlvs = [cap_bytes(c) for c in caps]
     params = b''.join(bytes([2, len(v) + 2, k, len(v)]) + v for k, v in tlvs)
     as2 = true_as if true_as <= 65535 else AS_TRANS
-    body = bytes([4]) + be16(as2) + be16(hold) + be32(rid) + bytes([len(params)]) + params
+    if lenoct is None:
+        body = bytes([4]) + be16(as2) + be16(hold) + be32(rid) + bytes([len(params)]) + params
+    else:
+        params = b''.join(bytes([2]) + be16(len(v) + 2) + bytes([k, len(v)]) + v for k, v in tlvs)
+        body = bytes([4]) + be16(as2) + be16(hold) + be32(rid) + bytes([lenoct, 255]) + be16(len(params)) + params
     adv = {'version': 4, 'as2': as2, 'hold': hold, 'id': rid, 'mp': [c[1] for c in caps if c[0] == 'mp'], 'as4': [true_as],
            'addpath': [], 'nexthop': [], 'extmsg': False, 'refresh': False, 'enhanced': False, 'pl': [], 'ms': False, 'ms_ids': []}
     return {'body': list(body), 'adv': adv, 'kind': 'valid', 'consistent': True, 'extended_params': False, 'ncaps': len(caps),
-            'note': ['shrunk'], 'true_as': true_as}
+            'note': ['shrunk'] + ([f'rfc9072-len-octet-{lenoct}'] if lenoct not in (None, 255) else []), 'true_as': true_as}
 
 
 def check(tier, seed):
@@ -751,7 +771,8 @@ def check(tier, seed):
         '(Gen_Registry.UNKNOWN_PARAM_SUBCODE = 4, RFC 4271 6.2)',
         gen_flags.get('UNKNOWN_PARAM_SUBCODE') == 4, f'probe: {gen_flags}')
 
-    for flag, what in (('MS_VALUE_PARSED', 'the MultiSession capability value is one TLV [flags, codes] and is read back on receipt'),
+    for flag, what in (('EXT_BY_TYPE_OCTET', 'the RFC 9072 encoding is selected by the type octet 255 alone (any non-zero length octet before it)'),
+                       ('MS_VALUE_PARSED', 'the MultiSession capability value is one TLV [flags, codes] and is read back on receipt'),
                        ('AUTO_AS_FROM_PEER_CAP', 'with local-as auto our OPEN carries the true AS of the peer, in My AS and in the ASN4 capability'),
                        ('AUTO_COLLISION_CHECK', 'with local-as auto the identifier collision test uses the negotiated local AS')):
         run.obligation(f'tree behaviour: {what} (Gen_Registry.{flag} = true)', gen_flags.get(flag) is True, f'probe: {gen_flags}')
@@ -928,7 +949,15 @@ def check(tier, seed):
             return []
         return [FIELD[c] for _, d in parse_pairs(res[0][2][0]) for c in d]
 
+    def len_octet(peer):
+        for x in peer['note']:
+            if str(x).startswith('rfc9072-len-octet-'):
+                return int(str(x).rsplit('-', 1)[1])
+        return None
+
     def sig_of(name, cfg, peer, out):
+        if len_octet(peer) is not None and out[0] == 'D':
+            return 'rfc9072-extended-encoding-refused-when-length-octet-not-255'
         if not cfg['local_as']:
             return f'local-as-auto:{name}'
         if cfg['multisession'] and name in ('accepted-with-fault', 'refused-without-fault', 'wrong-subcode'):
@@ -954,7 +983,7 @@ def check(tier, seed):
             hold = peer['adv']['hold'] if name == 'holdtime' else 90
             for true_as, rid in ((cfg['peer_as'] or peer['true_as'], other_id), (peer['true_as'], other_id),
                                  (peer['true_as'], peer['adv']['id'])):
-                cand = minimal_peer(cfg, true_as, rid, hold)
+                cand = minimal_peer(cfg, true_as, rid, hold, lenoct=len_octet(peer))
                 _, cout = run_impl(n, confs[ci]['restarted'], cand['body'], univ)
                 if cout[0] != 'X' and name in judge_one(cfg, cand, cout, univ) and sig_of(name, cfg, cand, cout) == sig:
                     small, sout = cand, cout
@@ -988,6 +1017,8 @@ def check(tier, seed):
         'distribution': dict(kinds),
         'outcomes': dict(outs),
         'peer_extended_params': sum(1 for c in cases if c[2]['extended_params']),
+        'peer_extended_params_length_octet_not_255': sum(1 for c in cases if any(str(x).startswith('rfc9072-len-octet') for x in c[2]['note'])),
+        'peer_base_encoding_length_255': sum(1 for c in cases if 'base-encoding-length-255' in c[2]['note']),
         'our_open_extended_params': ext_ours,
         'configs_loaded': len(loaded), 'configs_skipped': skipped,
         'local_as_4byte_cases': sum(1 for c in cases if c[1]['local_as'] > 65535),
